@@ -3,7 +3,15 @@ from . import edges as E
 from . import grammar as S
 
 OPP = {"L": "R", "R": "L"}
-_WCC = {"a": "t", "t": "a", "A": "T", "T": "A", "c": "g", "g": "c", "C": "G", "G": "C", "n": "n", "N": "N"}
+# IUPAC nucleotide codes and their complements (written out from the IUPAC table: R = A/G <-> Y = C/T,
+# K = G/T <-> M = A/C, B = not A <-> V = not T, D = not C <-> H = not G; S = C/G, W = A/T and N are
+# their own complements)
+_PAIRS = [("A", "T"), ("C", "G"), ("R", "Y"), ("K", "M"), ("B", "V"), ("D", "H"), ("S", "S"), ("W", "W"), ("N", "N")]
+_WCC = {}
+for _a, _b in _PAIRS:
+    for _x, _y in ((_a, _b), (_b, _a)):
+        _WCC[_x] = _y
+        _WCC[_x.lower()] = _y.lower()
 
 
 def rc(seq):
